@@ -4,6 +4,7 @@ from ..rules import dtype_rules as D
 from ..rules import rep_rules as R
 from ..rules import cache_rules as CA
 from ..rules import sibling_rules as SI
+from ..rules import misc_rules as MI
 from ..rules.common import u1, n1
 
 COX = R.COX
@@ -32,6 +33,8 @@ def run(ctx):
     ctx.do(SI.rule_pa1)
     ctx.do(SI.rule_inf1)
     ctx.do(SI.rule_eigh1)
+    ctx.do(MI.rule_nonneg1, ["geometry_tools/utils/core.py", "geometry_tools/coxeter.py"])
+    ctx.do(MI.rule_eigh2, ["geometry_tools/utils/core.py", "geometry_tools/coxeter.py"])
     ctx.do(DT.rule_lk2, ["geometry_tools/coxeter.py"])
     ctx.do(SI.rule_cm1)
     ctx.do(u1, ENTRIES, min_functions=15)
